@@ -75,7 +75,7 @@ func (v Undefined) String() string { panic("Attempted to coerce undefined value 
 func (v Null) String() string      { return "null" }
 func (v Bool) String() string      { return strconv.FormatBool(bool(v)) }
 func (v Int) String() string       { return strconv.FormatInt(int64(v), 10) }
-func (v Float) String() string     { return strconv.FormatFloat(float64(v), 'g', -1, 64) }
+func (v Float) String() string     { return formatFloat(float64(v)) }
 func (v String) String() string    { return string(v) }
 
 func (v List) String() string {
@@ -161,4 +161,27 @@ func (v Float) Equals(other Value) bool {
 		return v == o
 	}
 	return false
+}
+
+// formatFloat prints f the way JavaScript's Number.prototype.toString does, so
+// that the Go renderer and the generated JavaScript write the same text:
+// positional notation for 1e-6 <= |f| < 1e21, exponent notation without
+// leading zeros in the exponent otherwise, and no sign on zero.
+func formatFloat(f float64) string {
+	switch {
+	case math.IsNaN(f):
+		return "NaN"
+	case math.IsInf(f, 1):
+		return "Infinity"
+	case math.IsInf(f, -1):
+		return "-Infinity"
+	case f == 0:
+		return "0"
+	}
+	if abs := math.Abs(f); 1e-6 <= abs && abs < 1e21 {
+		return strconv.FormatFloat(f, 'f', -1, 64)
+	}
+	var s = strconv.FormatFloat(f, 'e', -1, 64) // d.ddde-07
+	var i = strings.IndexByte(s, 'e') + 2
+	return s[:i] + strings.TrimLeft(s[i:], "0")
 }
